@@ -3,8 +3,8 @@ package main
 import (
 	"fmt"
 	"go/ast"
-	"regexp"
 	"go/token"
+	"regexp"
 	"sort"
 	"strings"
 
@@ -12,9 +12,9 @@ import (
 )
 
 type (
-	ssa_Value = ssa.Value
-	ssa_Block = ssa.BasicBlock
-	ssa_Phi = ssa.Phi
+	ssa_Value      = ssa.Value
+	ssa_Block      = ssa.BasicBlock
+	ssa_Phi        = ssa.Phi
 	ast_AssignStmt = ast.AssignStmt
 	ssa_Store      = ssa.Store
 	ssa_FieldAddr  = ssa.FieldAddr
@@ -364,6 +364,75 @@ func ruleL4(c *Ctx) {
 	c.expectMin("L4", 10)
 }
 
+// L6: stepping back to the separator. Where a branch chooses between returning X-1 (the separator before the
+// token just seen) and X with the same verdict, the X arm is taken only when stepping back is impossible, i.e. when
+// X-1 would lie before the offset this call started at: the facts on the X arm entail X <= offs. A stronger guard
+// returns the token start instead of the separator for some inputs (and only when the call was resumed there).
+func ruleL6(c *Ctx) {
+	e := newErrAnalysis(c.Prog)
+	n := 0
+	for _, f := range streamingFuncs(c, e) {
+		fk := ssaKey(f)
+		ei := errResultIndex(f)
+		bp := bufParam(f)
+		var offsP *ssa.Parameter
+		for j, p := range f.Params {
+			if p == bp && j+1 < len(f.Params) {
+				offsP = f.Params[j+1]
+			}
+		}
+		if offsP == nil || ei < 0 {
+			continue
+		}
+		cnt := 0
+		for _, b := range f.Blocks {
+			iff, ok := b.Instrs[len(b.Instrs)-1].(*ssa.If)
+			if !ok || len(b.Succs) != 2 {
+				continue
+			}
+			// the decision is about this call's region: it compares something with the offs parameter
+			{
+				env := newLinEnv(linOpts{})
+				onOffs := false
+				for _, fa := range env.condFacts(iff.Cond, true) {
+					if fa.L.T[env.atomKey(offsP)] != 0 {
+						onOffs = true
+					}
+				}
+				if !onOffs {
+					continue
+				}
+			}
+			r0, ok0 := b.Succs[0].Instrs[len(b.Succs[0].Instrs)-1].(*ssa.Return)
+			r1, ok1 := b.Succs[1].Instrs[len(b.Succs[1].Instrs)-1].(*ssa.Return)
+			if !ok0 || !ok1 || len(b.Succs[0].Preds) != 1 || len(b.Succs[1].Preds) != 1 {
+				continue
+			}
+			v0, c0 := constIntOf(r0.Results[ei])
+			v1, c1 := constIntOf(r1.Results[ei])
+			if !c0 || !c1 || v0 != v1 {
+				continue
+			}
+			env := newLinEnv(linOpts{})
+			d := env.norm(r0.Results[0]).add(env.norm(r1.Results[0]), -1)
+			if !d.isConst() || (d.C != 1 && d.C != -1) {
+				continue
+			}
+			stay := r0 // the arm that returns X (not stepped back)
+			if d.C == -1 {
+				stay = r1
+			}
+			n++
+			cnt++
+			x := stay.Results[0]
+			r := prove(c, f, stay, func(env *linEnv) Lin { return env.norm(x).add(env.norm(offsP), -1) })
+			le := newLinEnv(linOpts{})
+			c.check(r.ok, "L6", fmt.Sprintf("%s:step-back#%d", fk, cnt), stay.Pos(), "the arm that returns "+le.pretty(le.norm(x))+" instead of stepping back to the separator is taken only when "+le.pretty(le.norm(x))+" <= "+offsP.Name()+" (stepping back would leave this call's region): "+r.how)
+		}
+	}
+	c.check(n >= 2, "L6", "sites", token.NoPos, fmt.Sprintf("%d step-back decisions found (frozen minimum 2)", n))
+}
+
 func init() {
 	register(&PropDef{
 		ID: "C17",
@@ -372,6 +441,7 @@ func init() {
 			{"L2", "from the extracted ParseTokenParam automaton: in every token state a byte is kept only as linear whitespace (through skipLWS), as the configured separator/terminator, as '=' or a quote, or after tokAllowedChar accepted it; a rejected byte returns ErrHdrBadChar in the error state; quoted values are consumed only by SkipQuoted, whose kept set is exact; every whitespace suspension returns the offset before the whitespace", ruleL2},
 			{"L3", "separator/terminator selection: decision table of the prologue over the option bits (sep '&' iff AmpSep|URIHdr else ';'; term '?' iff QmTerm|URIParam, else ',' iff CommaTerm, else none); the wrappers add exactly their documented options", ruleL3},
 			{"L4", "list wrappers count, classify (URIParamResolve, case-insensitive, six names) and accumulate type flags on every completed parameter as unconditional statements", ruleL4},
+			{"L6", "stepping back to the separator: where a branch chooses between returning X-1 (the separator before the token just seen) and X with the same verdict, the X arm is taken only when the dominating facts entail X <= offs — the returned offset is the separator whenever the separator lies inside this call's region", ruleL6},
 			{"L5", "buffer exhaustion gives more-bytes in every state without the end-of-input option; with it, every state has a finalisation (open name/value closed, open quote stays more-bytes)", ruleL5},
 		},
 		Assumptions: []string{"skipLWS consumes only SP/HT/CR/LF sequences (C07-T4, C03)"},
